@@ -638,7 +638,8 @@ macro_rules! c10_autoq {
 c10_autoq!(c10_autoq_u8_pre311_pushpop_ops2, quick, 10, u8, 311, 2, 0x03, 1);
 c10_autoq!(c10_autoq_tracked_pre311_pushpop_clear_ops2, quick, 10, Tracked, 311, 2, 0x23, 1);
 c10_autoq!(c10_autoq_u8_pre210_bulk2_ops2, quick, 10, u8, 210, 2, 0x0f, 2);
-c10_autoq!(c10_autoq_u8_bulk4_clone_ops2, quick, 10, u8, 0, 2, 0x44, 4);
+c10_autoq!(c10_autoq_u8_bulk4_clone_ops2, thorough, 10, u8, 0, 2, 0x44, 4);
+c10_autoq!(c10_autoq_u8_bulk3_clone_ops2, quick, 10, u8, 0, 2, 0x44, 3);
 c10_autoq!(c10_autoq_tracked_bulk4_clear_ops2, quick, 10, Tracked, 0, 2, 0x24, 4);
 c10_autoq!(c10_autoq_u8_pushpop_ops5, thorough, 10, u8, 0, 5, 0x03, 1);
 c10_autoq!(c10_autoq_u8_bulk3_ops3, thorough, 10, u8, 0, 3, 0x0f, 3);
